@@ -23,6 +23,7 @@ helper functions therefore do not change the verdict.
 """
 import json
 import os
+import re
 from collections import defaultdict
 
 from engine import RuleSet
@@ -1579,3 +1580,55 @@ def r14_6(rep):
                   "`return %s` can succeed before the `-nightly` adjustment has run: that spelling of a nightly target is taken for the stable release"
                   % b.canon(v, 3)[:60], b.loc(r))
     rep.check(True, "tail-after-adjustment", "the final result is computed after the adjustment")
+
+
+# ---------------------------------------------------------------------------------------------------------
+# R14.7  the helper type that is pasted verbatim into every bindings file with bit-fields
+# ---------------------------------------------------------------------------------------------------------
+HELPER_FEATURES = {
+    # construct -> (first stable minor, how it is recognised)
+    "usize::BITS": 53,
+    "panic in const fn (assert!/debug_assert!/panic! inside `const fn`)": 57,
+}
+
+
+@RULES.rule("R14.7", "the `__BindgenBitfieldUnit` text uses nothing newer than the earliest supported target", floor=2)
+def r14_7(rep):
+    """`codegen/bitfield_unit.rs` is emitted as is for EVERY target (nothing in it is gated), so it may only use what the earliest
+    supported release has.  `usize::BITS` is 1.53 and a panicking macro inside `const fn get_const` needs const panics (1.57): with
+    `--rust-target 1.51` … `1.56` any header with a bit-field yields bindings that compiler rejects."""
+    import facts as facts_mod
+    from hir import Program
+    prog = rep.prog
+    consts = ctx_of(rep).stable_consts()
+    earliest = rep.need(prog.fn("features::EARLIEST_STABLE_RUST"), "const EARLIEST_STABLE_RUST")
+    src = earliest.canon(earliest.root, 6)
+    m = re.search(r"Stable_1_(\d+)", src)
+    lo = int(m.group(1)) if m else min(v for k, v in consts.items() if not k.endswith("Nightly"))
+    rep.note("earliest_minor", lo)
+    f, info = facts_mod.load_file("bindgen/codegen/bitfield_unit.rs", "bitfield_unit")
+    hp = Program(f)
+    text = open(os.path.join(facts_mod.REPO, "bindgen/codegen/bitfield_unit.rs")).read().splitlines()
+    n_bodies = 0
+    uses = {}
+    for p, b in sorted(hp.bodies.items()):
+        n_bodies += 1
+        name = p.split("::")[-1]
+        line = text[b.line - 1] if 0 < b.line <= len(text) else ""
+        is_const_fn = re.search(r"\bconst\s+(unsafe\s+)?fn\s+" + re.escape(name) + r"\b", line) is not None
+        for n in b.nodes:
+            if n["k"] == "Path" and str(n.get("def", "")).endswith("::BITS") and "usize" in str(n.get("def", "")):
+                uses.setdefault("usize::BITS", []).append((b, n))
+            if is_const_fn and (b.macro_name(n) or "") in ("debug_assert", "assert", "panic", "unreachable", "assert_eq", "debug_assert_eq") and \
+                    n["k"] in ("Call",) and "panic" in str(n.get("callee") or ""):
+                uses.setdefault("panic in const fn (assert!/debug_assert!/panic! inside `const fn`)", []).append((b, n))
+    rep.need(n_bodies >= 14, "bodies of bitfield_unit.rs")
+    for feat, since in sorted(HELPER_FEATURES.items()):
+        sites = uses.get(feat, [])
+        if not sites:
+            rep.ok("helper-feature:" + feat.split(" ")[0], "not used")
+            continue
+        fns = sorted({b.path.split("::")[-1] for b, _ in sites})
+        rep.check(since <= lo, "helper-feature:" + feat.split(" ")[0],
+                  "`%s` (since 1.%d) is used in %s; the earliest supported target is 1.%d" % (feat, since, ", ".join(fns), lo) if since > lo else
+                  "since 1.%d <= earliest supported 1.%d" % (since, lo), "bindgen/codegen/bitfield_unit.rs:%s" % sites[0][0].loc(sites[0][1]).split(":")[-1])
